@@ -5,3 +5,7 @@
 mod util;
 #[cfg(test)]
 mod ptpwire;
+#[cfg(test)]
+mod csptp_wire;
+#[cfg(test)]
+mod csptp_server;
